@@ -177,6 +177,10 @@ def run_check(pid, tier, seed, replay=None):
             pass
     ncorpus = len(cases)
     cases += mod.gen_cases(rng, tier)
+    if tier != 'quick':
+        # the thorough tier draws two more independent rounds of the generator (different PRNG streams of the same seed)
+        for extra in (1, 2):
+            cases += mod.gen_cases(core.rng_for(seed, '%s/round%d' % (pid, extra)), tier)
     fails, exps = run_cases(mod, pid, bdir, model, cases, mod.MODES, stats)
     nontrivial = set()
     for c, e in zip(cases, exps):
